@@ -28,8 +28,8 @@ type job struct {
 }
 
 type stats struct {
-	sessions, faultSessions, longBoth int64
-	byPairing                         sync.Map
+	sessions, faultSessions, longBoth, refusedSessions int64
+	byPairing                                          sync.Map
 }
 
 var garbageClasses = []int{0, 1, 15, 16, 4094, 4095}
@@ -150,6 +150,11 @@ func (j *job) run(ctx *vrun.Ctx, st *stats) error {
 				never = append(never, a)
 			}
 		}
+		if j.p.MaxRefused > 0 {
+			if n, ok := res.ActionCount["SendRefused"]; !ok || n == 0 {
+				never = append(never, "SendRefused")
+			}
+		}
 		if len(never) > 0 && j.p.MaxFaults > 0 {
 			return fmt.Errorf("%s: vacuity: actions never taken: %v (have %v)", j.name, never, res.ActionCount)
 		}
@@ -248,7 +253,7 @@ func (j *job) run(ctx *vrun.Ctx, st *stats) error {
 
 func (j *job) replay(ctx *vrun.Ctx, st *stats, behaviours [][]tla.State) error {
 	var firstErr atomic.Value
-	var long, steps, maxI, maxR, withFaults int64
+	var long, steps, maxI, maxR, withFaults, withRefused int64
 	t0 := time.Now()
 	ctx.Parallel(len(behaviours), func(i int) {
 		if firstErr.Load() != nil {
@@ -279,6 +284,10 @@ func (j *job) replay(ctx *vrun.Ctx, st *stats, behaviours [][]tla.State) error {
 			}
 		}
 		atomic.AddInt64(&st.sessions, 1)
+		if s.refused > 0 {
+			atomic.AddInt64(&withRefused, 1)
+			atomic.AddInt64(&st.refusedSessions, 1)
+		}
 		if s.faults > 0 {
 			atomic.AddInt64(&withFaults, 1)
 			atomic.AddInt64(&st.faultSessions, 1)
@@ -298,7 +307,7 @@ func (j *job) replay(ctx *vrun.Ctx, st *stats, behaviours [][]tla.State) error {
 	if e := firstErr.Load(); e != nil {
 		return e.(error)
 	}
-	ctx.Logf("%s: replayed %d behaviours (%d with faults, %d steps, highest packet counter I=%d R=%d, %d crossing two real rekeys both ways) in %.1fs", j.name, len(behaviours), withFaults, steps, maxI, maxR, long, time.Since(t0).Seconds())
+	ctx.Logf("%s: replayed %d behaviours (%d with faults, %d with refused sends, %d steps, highest packet counter I=%d R=%d, %d crossing two real rekeys both ways) in %.1fs", j.name, len(behaviours), withFaults, withRefused, steps, maxI, maxR, long, time.Since(t0).Seconds())
 	ctx.AddExtra("steps_replayed", steps)
 	if j.needLong && long == 0 {
 		return fmt.Errorf("%s: no simulated session crossed two real rekey boundaries in each direction", j.name)
@@ -330,6 +339,8 @@ func (j *job) distinct(ctx *vrun.Ctx, s *session, b []tla.State) {
 			}
 			ctx.Distinct(fmt.Sprintf("fault|%s|%s|%s|%s|%s|recv-%s", s.pair, last.F("kind").Str(), last.F("unit").Str(), last.F("part").Str(), e,
 				b[k]["st"].F(recv).F("ph").Str()))
+		case "SendRefused":
+			ctx.Distinct(fmt.Sprintf("refused|%s|%s|ctr%d", s.pair, last.F("e").Str(), last.F("ctr").Int()%bipRekeyInterval))
 		case "Send":
 			if j.realRI {
 				c := last.F("ctr").Int() % bipRekeyInterval
@@ -354,5 +365,6 @@ func summarise(ctx *vrun.Ctx, st *stats) {
 	sort.Strings(ks)
 	ctx.SetExtra("sessions_by_pairing", strings.Join(ks, " "))
 	ctx.SetExtra("sessions_with_faults", st.faultSessions)
+	ctx.SetExtra("sessions_with_refused_oversized_send", st.refusedSessions)
 	ctx.SetExtra("sessions_crossing_two_real_rekeys_both_directions", st.longBoth)
 }
